@@ -624,6 +624,54 @@ def canon(e: ast.AST, fuse: bool = False) -> ast.AST:
     return ast.fix_missing_locations(c.visit(copy.deepcopy(e)))
 
 
+def under_defaults(e: ast.AST, fnode: ast.FunctionDef, keep=()) -> ast.AST:
+    """`e` with every parameter of `fnode` that has a constant default and is not in `keep` replaced by that default, and
+    the conditional expressions this decides folded away: how the function reads when its extra options are left alone."""
+    a = fnode.args
+    pos = a.posonlyargs + a.args
+    dflt = {p.arg: d for p, d in zip(pos[len(pos) - len(a.defaults):], a.defaults) if isinstance(d, ast.Constant)}
+    dflt.update({p.arg: d for p, d in zip(a.kwonlyargs, a.kw_defaults) if isinstance(d, ast.Constant)})
+    dflt = {k: v for k, v in dflt.items() if k not in keep}
+    if not dflt:
+        return e
+
+    def const_test(t: ast.AST):
+        if isinstance(t, ast.Constant):
+            return bool(t.value)
+        if isinstance(t, ast.UnaryOp) and isinstance(t.op, ast.Not):
+            v = const_test(t.operand)
+            return None if v is None else (not v)
+        if isinstance(t, ast.Compare) and len(t.ops) == 1 and isinstance(t.left, ast.Constant) and isinstance(t.comparators[0], ast.Constant):
+            l, r = t.left.value, t.comparators[0].value
+            op = t.ops[0]
+            if isinstance(op, ast.Is):
+                return l is r
+            if isinstance(op, ast.IsNot):
+                return l is not r
+            if isinstance(op, ast.Eq):
+                return l == r
+            if isinstance(op, ast.NotEq):
+                return l != r
+        return None
+
+    class S(ast.NodeTransformer):
+        def visit_Name(self, node):
+            if isinstance(node.ctx, ast.Load) and node.id in dflt:
+                return copy.deepcopy(dflt[node.id])
+            return node
+
+        def visit_IfExp(self, node):
+            self.generic_visit(node)
+            v = const_test(node.test)
+            if v is True:
+                return node.body
+            if v is False:
+                return node.orelse
+            return node
+
+    return ast.fix_missing_locations(S().visit(copy.deepcopy(e)))
+
+
 def ctext(e: ast.AST) -> str:
     return ast.unparse(canon(e))
 
